@@ -127,7 +127,9 @@ Fixpoint l2_steps (lc lp pb : Z) (s : l2st) (evs : list l2ev) : outcome l2st :=
 Definition lzma2_write (lc lp pb dict : Z) (preset : option (list Z)) (data : list Z) (evs : list l2ev)
   : outcome (list Z) :=
   let p := match preset with Some p => p | None => [] end in
-  let has_preset := match preset with Some _ => true | None => false end in
+  (* an empty preset dictionary counts as none (fix 14cc6e9 in /repo; before it Some [] suppressed
+     the first dictionary reset while the reader insisted on one) *)
+  let has_preset := match preset with Some (_ :: _) => true | _ => false end in
   let s0 := mkL2st (mkEncst (coder_new lc lp pb) (ehist_new dict p data) renc_init PLeaf)
                    (zlen (preset_kept dict p)) (negb has_preset) true true false [] in
   do s1 <- l2_steps lc lp pb s0 evs;
